@@ -1033,4 +1033,61 @@ def defineMap (ents : List (Name × MAct)) : Outcome × List Name :=
   | none => (.typeError, [])
   | some names => (.ok, names.eraseDups)
 
+/-! ### observers of prototype links with primitive / missing arguments and null / undefined receivers
+    (builtin_object.go builtinObjectIsPrototypeOf, builtinObjectGetPrototypeOf; type_function.go:250 hasInstance) -/
+
+/-- the built-in prototype objects used as receivers -/
+inductive PLink | objectP | numberP | stringP | booleanP | functionP
+deriving DecidableEq, Repr
+
+inductive PRecv | proto (p : PLink) | null | undefined
+deriving DecidableEq, Repr
+
+inductive PArg
+  | number | string | boolean | undefined | null | missing          -- not objects
+  | numObj | strObj | boolObj | plain | func | nullProto           -- objects
+deriving DecidableEq, Repr
+
+/-- the prototype chain of an argument that is an object (none = not an object) -/
+def PArg.chain : PArg → Option (List PLink)
+  | .numObj => some [.numberP, .objectP]
+  | .strObj => some [.stringP, .objectP]
+  | .boolObj => some [.booleanP, .objectP]
+  | .plain => some [.objectP]
+  | .func => some [.functionP, .objectP]
+  | .nullProto => some []
+  | _ => none
+
+inductive PRes | t | f | typeError | isProto (p : PLink) | isNull | na
+deriving DecidableEq, Repr
+
+/-- builtin_object.go builtinObjectIsPrototypeOf: `if !value.IsObject() return false` comes first, then
+    call.thisObject() (TypeError for null), then the walk.  The harness passes the receiver through
+    Function.prototype.call, and builtin_function.go:112-115 (`// FIXME Not ECMA5`) replaces an undefined thisArg by the
+    global object, which is on nobody's chain here -/
+def isPrototypeOf (r : PRecv) (a : PArg) : PRes :=
+  match a.chain with
+  | none => .f
+  | some ch =>
+    match r with
+    | .proto p => if ch.contains p then .t else .f
+    | .undefined => .f
+    | .null => .typeError
+
+/-- builtin_object.go builtinObjectGetPrototypeOf -/
+def getPrototypeOf (a : PArg) : PRes :=
+  match a.chain with
+  | none => .typeError
+  | some [] => .isNull
+  | some (p :: _) => .isProto p
+
+/-- evaluate.go:131-138 + type_function.go:250 hasInstance: `arg instanceof C` where C.prototype is the receiver -/
+def instanceOf (r : PRecv) (a : PArg) : PRes :=
+  match r with
+  | .proto p =>
+    (match a.chain with
+     | none => .f
+     | some ch => if ch.contains p then .t else .f)
+  | _ => .na
+
 end OttoVerif.C07
